@@ -44,6 +44,7 @@ From ASModel Require Import GenDefs Gen1 Gen2 Gen EnvDefs Env4 Env AccDefs Acc1 
 From ASModel Require Import ProtDefs Prot1 Prot11 Prot16 Prot Typed LinDefs Lin2 Lin Safe1 Safe2 Safe7 Safe8 Safe Main GenLen ProgWF1 ProgWF RunOKEx.
 From ASModel Require Import Stale StaleInv.
 From ASModel Require Import Stale2 Stale2Inv.
+From ASModel Require Import StaleC StaleCInv.
 
 Theorem C01_dec : forall s a,
   match heap s a with
@@ -220,3 +221,16 @@ Proof. exact (conj RunOKS2_example RunOKS2_example_y). Qed.
 
 Print Assumptions C01_no_use_after_free_stale2.
 Print Assumptions C01_stale2_scope_inhabited.
+
+(** ** Programs WITH Cache commands and all five weakened loads ([StaleC.step_stale3]: the four of
+    [Stale2] and the revalidating read of [Cache::load]; this is the function the model driver runs):
+    no thread faults in any state of any run within [RunOKS3], no step touches a destroyed count. *)
+Theorem C01_no_use_after_free_stale3 : forall cf inits progs sched,
+  RunOKS3 cf inits progs sched ->
+  (forall k, NoFault (St3 cf (init_state inits progs) sched k)) /\
+  (forall k t x, nth_error sched k = Some (t, x) ->
+     forall a, ~ In (EvFault (FDeadInc a)) (snd (step_stale3 cf (St3 cf (init_state inits progs) sched k) t x)) /\
+               ~ In (EvFault (FDeadDec a)) (snd (step_stale3 cf (St3 cf (init_state inits progs) sched k) t x))).
+Proof. exact StaleCInv28.C16_no_fault_stale3. Qed.
+
+Print Assumptions C01_no_use_after_free_stale3.
